@@ -72,6 +72,25 @@ pub fn check(_ctx: &Ctx, c: &Num, acc: &mut Acc) -> Result<(), Fail> {
             );
             if let Some(t) = table.iter().find(|t| t.1 == n16) {
                 acc.class("named-option");
+                // on the wire: the named option is encoded under its registry number
+                let mut p = Packet::new();
+                p.add_option(t.0, vec![0x5A]);
+                match catch(|| p.to_bytes()) {
+                    Ok(Ok(bytes)) => {
+                        let (v, _) = crate::refmodel::wire::parse(&bytes);
+                        let ok = matches!(&v, crate::refmodel::wire::Verdict::MustAccept(m) if m.options == vec![(t.1, vec![0x5A])]);
+                        ensure!(
+                            ok,
+                            "c05-option-on-the-wire",
+                            "{:?} ({}) is encoded as {}, not as option number {}",
+                            t.0,
+                            t.2,
+                            crate::pkt::hex(&bytes),
+                            t.1
+                        );
+                    }
+                    other => fail!("c05-option-on-the-wire", "encoding a message with {:?} failed: {other:?}", t.0),
+                }
                 ensure!(
                     u16::from(t.0) == t.1,
                     "c05-option-name-to-number",
@@ -118,6 +137,30 @@ pub fn check(_ctx: &Ctx, c: &Num, acc: &mut Acc) -> Result<(), Fail> {
                         "{w:?} converts to {}, registry id is {n}",
                         usize::from(*w)
                     );
+                    // on the wire: Content-Format carries the registry id as a uint
+                    let mut p = Packet::new();
+                    p.set_content_format(*w);
+                    match catch(|| p.to_bytes()) {
+                        Ok(Ok(bytes)) => {
+                            let (v, _) = crate::refmodel::wire::parse(&bytes);
+                            let want = crate::props::c01::min_uint(n as u64);
+                            let ok = matches!(&v, crate::refmodel::wire::Verdict::MustAccept(m) if m.options == vec![(12u16, want.clone())]);
+                            ensure!(
+                                ok,
+                                "c05-content-format-on-the-wire",
+                                "{w:?} (id {n}) is sent as {}, expected option 12 with value {}",
+                                crate::pkt::hex(&bytes),
+                                crate::pkt::hex(&want)
+                            );
+                            let back = Packet::from_bytes(&bytes).ok().and_then(|q| q.get_content_format());
+                            ensure!(
+                                back == Some(*w),
+                                "c05-content-format-on-the-wire",
+                                "{w:?} (id {n}) reads back from its own encoding as {back:?}"
+                            );
+                        }
+                        other => fail!("c05-content-format-on-the-wire", "encoding failed: {other:?}"),
+                    }
                 }
                 (Err(_), None) => {}
                 (Ok(g), None) => fail!(
